@@ -50,6 +50,7 @@ class Ctx:
         self.tlc_distinct = 0
         self.tlc_runs = 0
         self.notes = []
+        self.replay = None
 
     def quick(self):
         return self.tier == "quick"
